@@ -46,14 +46,17 @@ def rpc(names):
     return v
 
 
-REGEX_TIMEOUT = 5   # seconds; loki's default is 30 (a normal regex parse of a generated file takes ~0.03 s)
+REGEX_TIMEOUT = 15   # seconds; loki's default is 30 (a normal regex parse of a generated file takes ~0.03 s)
+
+
+_timeout = [REGEX_TIMEOUT]
 
 
 def parse(text, frontend, classes=None):
     from loki import Sourcefile
     from loki.config import config
     from loki.frontend import FP, REGEX
-    config['regex-frontend-timeout'] = REGEX_TIMEOUT
+    config['regex-frontend-timeout'] = _timeout[0]
     if frontend == 'fp':
         return Sourcefile.from_source(text, frontend=FP)
     return Sourcefile.from_source(text, frontend=REGEX, parser_classes=rpc(classes or ['AllClasses']))
@@ -112,16 +115,19 @@ def stmt_tag(rendered, d):
 
 
 def signatures(rendered, diffs, prefix):
-    """one signature per (class, direction, statement tag); only the first class in dependency order is reported"""
+    """
+    ONE signature per failing case: the first difference (class in dependency order units > imports > typedefs >
+    interfaces > calls; within a class 'differs' before 'missing' before 'spurious'; then file order) names it.
+    Further differences of the same case are consequences more often than not (a unit that ends early drags
+    calls, nested units ... with it) and would give one root cause several names.
+    """
     order = ['units', 'imports', 'typedefs', 'ifaces', 'calls']
+    rank = {'differs': 0, 'missing': 1, 'spurious': 2, 'order': 3}
     for cls in order:
         ds = [d for d in diffs if d[0] == cls]
         if ds:
-            out = {}
-            for d in ds:
-                sig = f'{prefix}:{cls}:{d[2]}:{stmt_tag(rendered, d)}'
-                out.setdefault(sig, d)
-            return out
+            d = sorted(ds, key=lambda d: rank[d[2]])[0]
+            return {f'{prefix}:{cls}:{d[2]}:{stmt_tag(rendered, d)}': d}
     return {}
 
 
@@ -157,6 +163,8 @@ def triggers(model, layout, rendered):
         for r in rs:
             if r['end'] == 'bare':
                 out.add('bare_end')
+            if any(it[0] == 'generic' for it in r['ifaces']):
+                out.add('free_iface_modproc')
             if any(x.get('nature') for x in r['uses']):
                 out.add('use_nature')
             if '"if (a) call b"' in _dumps(r['body']) or any(t in _dumps(r['body']) for t in ('"(x) call y("', '"call z(1)"', '") call w"')):
@@ -297,6 +305,7 @@ def resolve_history(hist, units, order=None):
 
 # ---------------------------------------------------------------------------------------------
 def check_case(case, ctx):
+    _timeout[0] = case.get('regex_timeout') or REGEX_TIMEOUT      # committed replays of time-outs use a short one
     model, layout = case['model'], case['layout']
     rendered = render(model, layout)
     text = rendered.text
@@ -380,9 +389,11 @@ def cases(draw, prof=None, quote_comments=False):
 
 
 def run_shard(ctx):
-    for k in EXCLUDED:
-        ctx.exclude(f'generator flag {k} off (listed finding)', 0)
-    ctx.given(cases(PROFILE), check_case, ctx.scale(1500, 30000))
+    def counted(case, ctx_):
+        for k in list(EXCLUDED) + gen.LAYOUT_TRIGGERS + ['nested_then_ancestor']:
+            ctx_.exclude(f'trigger {k} of a listed finding is never drawn (cases generated without it)')
+        check_case(case, ctx_)
+    ctx.given(cases(PROFILE), counted, ctx.scale(1500, 30000))
 
 
 def replay(case, ctx):
